@@ -810,9 +810,9 @@ pub struct XSummary {
 fn runs_for(id: &str, tier: &str) -> u64 {
     match (id, tier) {
         ("C01", "thorough") => 400_000,
-        ("C01", _) => 3000,
+        ("C01", _) => 10_000,
         ("C20", "thorough") => 400_000,
-        _ => 4000,
+        _ => 12_000,
     }
 }
 
